@@ -7,6 +7,7 @@ CONSTANTS
   MaxTests = 1
   MaxTags = 0
   MaxTime = 1
+  MaxRuns = 1
 CONSTRAINT ExportC
 INVARIANT WireWellFormed
 INVARIANT RoundTrip
